@@ -328,6 +328,9 @@ func (g *pure2Gen) rangeExpr() *aspgen.Expr {
 	case 0:
 		return aspgen.E(call("range", pos(aspgen.IntE(r.Range(0, 3))), pos(aspgen.IntE(r.Range(2, 9)))))
 	case 1:
+		// with a step that does not divide stop - start pyRange.Len() is smaller than the number of items: the shared evaluator
+		// model refuses a comprehension over it (append would grow the array), so do the reference run and the theorem
+		g.note("range-step")
 		return aspgen.E(call("range", pos(aspgen.IntE(r.Range(0, 3))), pos(aspgen.IntE(r.Range(2, 12))), pos(aspgen.IntE(r.Range(1, 3)))))
 	case 2:
 		if len(g.lists) > 0 {
@@ -480,10 +483,18 @@ func (g *pure2Gen) stmt2() []*aspgen.Stmt {
 			return one(aspgen.Assign(g.fresh("i"), aspgen.E(call("len", pos(aspgen.IdE(d))))))
 		}
 	case 7:
-		if len(g.lists) > 0 {
+		{
 			g.note("list-index")
-			l := lib.Pick(r, g.lists)
-			return one(aspgen.Assign(g.fresh("v"), aspgen.E(aspgen.Index(aspgen.Ident(l), aspgen.IntE(r.Range(-2, 2))))))
+			es := []*aspgen.Expr{}
+			for k := r.Range(2, 4); k > 0; k-- {
+				es = append(es, g.smallInt())
+			}
+			idx := aspgen.IntE(r.Range(-2, 1))
+			if len(g.lists) > 0 && r.Chance(1, 4) {
+				// may be out of range: both raise
+				return one(aspgen.Assign(g.fresh("v"), aspgen.E(aspgen.Index(aspgen.Ident(lib.Pick(r, g.lists)), aspgen.IntE(0)))))
+			}
+			return one(aspgen.Assign(g.fresh("v"), aspgen.E(aspgen.Index(aspgen.List(es...), idx))))
 		}
 	case 8:
 		g.note("for-range")
@@ -500,7 +511,15 @@ func (g *pure2Gen) stmt2() []*aspgen.Stmt {
 		g.note(b)
 		it := aspgen.E(call("enumerate", pos(g.intListExpr())))
 		if b == "zip" {
-			it = aspgen.E(call("zip", pos(g.intListExpr()), pos(g.intListExpr())))
+			n := r.Range(0, 4)
+			mk := func() *aspgen.Expr {
+				es := []*aspgen.Expr{}
+				for k := 0; k < n; k++ {
+					es = append(es, g.smallInt())
+				}
+				return aspgen.E(aspgen.List(es...))
+			}
+			it = aspgen.E(call("zip", pos(mk()), pos(mk())))
 		}
 		if r.Bool() {
 			return one(aspgen.Assign(g.fresh("l"), aspgen.E(aspgen.Comp(aspgen.E(aspgen.Ident("p"), aspgen.Bin("+", aspgen.Ident("q"))), []string{"p", "q"}, it, nil))))
@@ -596,7 +615,7 @@ func (g *pure2Gen) callFn() []*aspgen.Stmt {
 		switch r.Intn(3) {
 		case 0: // leave it to the default
 		case 1:
-			if i == len(args) {
+			if i == len(args) && positionalArgs(args) {
 				args = append(args, pos(e))
 			} else {
 				args = append(args, kw(p, e))
@@ -625,8 +644,10 @@ func (g *pure2Gen) callFn() []*aspgen.Stmt {
 // Pure2Program generates one program aimed at the enlarged fragment; the second result lists the constructs it uses.
 func Pure2Program(r *lib.Rng) (aspgen.Prog, map[string]int) {
 	g := &pure2Gen{pureGen: &pureGen{r: r}, used: map[string]int{}}
-	g.out = append(g.out, aspgen.Assign(g.fresh("i"), g.intExpr(1)))
-	g.out = append(g.out, aspgen.Assign(g.fresh("l"), aspgen.E(g.listLit())))
+	e0 := g.intExpr(1)
+	g.out = append(g.out, aspgen.Assign(g.fresh("i"), e0))
+	l0 := aspgen.E(g.listLit())
+	g.out = append(g.out, aspgen.Assign(g.fresh("l"), l0))
 	for n := r.Range(1, 3); n > 0; n-- {
 		g.out = append(g.out, g.defFn())
 	}
